@@ -44,7 +44,11 @@ TCall ==
             /\ Step({}) /\ a' = [a EXCEPT !.shouldSend = TRUE]
        [] E.op = "proceed" ->
             /\ Step(StateFails \cup ProceedFails(a, E)) /\ a' = ProceedUpd(a, E)
-       [] E.op \in {"sr_write", "sb_write", "read"} ->
+       [] E.op = "sr_write" ->
+            \* an error other than output overflow means the request was refused (C17 says when that must happen)
+            /\ Step(StateFails)
+            /\ a' = [a EXCEPT !.ready = E.ready, !.refused = @ \/ (E.res = "err" /\ ~("overflow" \in DOMAIN E /\ E.overflow))]
+       [] E.op \in {"sb_write", "read"} ->
             /\ Step(StateFails) /\ a' = [a EXCEPT !.ready = E.ready]
        [] E.op = "try_read_100" ->
             /\ Step(StateFails \cup Read100Fails(a, E)) /\ a' = Read100Upd(a, E)
